@@ -11,6 +11,7 @@ import (
 	"crypto/tls"
 	"net"
 	"net/http"
+	"os"
 
 	"github.com/bolkedebruin/rdpgw/cmd/rdpgw/identity"
 )
@@ -60,7 +61,24 @@ func vpSetsockoptInt(fd, level, opt, value int) error {
 func vpTCPSetReadBuffer(c *net.TCPConn, n int) error  { return vpSetsockoptInt(-1, 1, 8, n) }
 func vpTCPSetWriteBuffer(c *net.TCPConn, n int) error { return vpSetsockoptInt(-1, 1, 7, n) }
 
-//vp:property C10
+// a gateway that duplicates the descriptor to tune it (TCPConn.File) owns the duplicate: the kernel socket
+// stays open until the duplicate is closed too
+var vpDupFilesOpen, vpDupFilesClosed int
+
+func vpTCPFile(c *net.TCPConn) (*os.File, error) {
+	vpDupFilesOpen++
+	return &os.File{}, nil
+}
+func vpFileFd(f *os.File) uintptr { return 7 }
+func vpFileClose(f *os.File) error {
+	vpDupFilesClosed++
+	return nil
+}
+
+//vp:property C10 C11
+//vp:stub (*net.conn).File = vpTCPFile
+//vp:stub (*os.File).Fd = vpFileFd
+//vp:stub (*os.File).Close = vpFileClose
 //vp:stub syscall.SetsockoptInt = vpSetsockoptInt
 //vp:stub (*net.conn).SetReadBuffer = vpTCPSetReadBuffer
 //vp:stub (*net.conn).SetWriteBuffer = vpTCPSetWriteBuffer
@@ -70,6 +88,7 @@ func vpTCPSetWriteBuffer(c *net.TCPConn, n int) error { return vpSetsockoptInt(-
 func VP_C10_sockbuf() {
 	vpResetHandlers()
 	vpSockopts, vpSockoptFails = nil, vpBool("setsockopt-fails")
+	vpDupFilesOpen, vpDupFilesClosed = 0, 0
 	tr := vpScript(0, 0)
 	vpNextTransports = []*vpTransport{tr}
 	g := &Gateway{}
@@ -99,6 +118,7 @@ func VP_C10_sockbuf() {
 	vpObserve("sockopts", uint64(len(vpSockopts)))
 	// the tunnel was served: its transport was read until the client dropped, then closed
 	vpAssert(tr.closed, "websocket-tunnel-served-and-closed-whatever-the-socket-tuning-did")
+	vpAssert(vpDupFilesOpen == vpDupFilesClosed, "no-duplicate-of-the-client-socket-is-left-open-when-the-tunnel-has-ended")
 	for _, l := range vpSockListeners {
 		l.Close()
 	}
